@@ -144,7 +144,7 @@ def eval_case_inner(ctx, exe, case, status_of, deep=True):
     fresh("A", ops)
     i_setup = len(ops)
     ops.append(f"run A {hx(case['setup'] + DUMP_ALL)}")
-    ops += ["dumpstr A", "rawall A", "hidden A"]
+    ops += ["dumpstr A", "rawall A", "rawall17 A"]
     out, rc, err = run_ops(ctx, exe, ops)
     if rc != 0 or len(out) < len(ops):
         res["problems"].append(("setup", f"harness stopped rc={rc} {err}"))
@@ -162,14 +162,13 @@ def eval_case_inner(ctx, exe, case, status_of, deep=True):
         return res
     res["judged"] = True
     res["entities"] = sorted(k[0] for k in ents1)
-    hidA = out[i_setup + 3]
+    t17 = unhx(out[i_setup + 3].split()[1])       # the same dump with exact (17-digit) doubles
     base_ops = list(ops[:-1])
-    gas = "gas" in case["kinds"]
     # components tied to a pure phase / kinetic reactant: their amounts are re-derived from it whenever input is read
     tied = {(k, p.rsplit("/", 1)[0]) for k, f in ents1.items() if k[0] in ("EXCHANGE_RAW", "SURFACE_RAW")
             for p in f if p.endswith("/phase_name") or p.endswith("/rate_name")}
     # ---- stage 2 (one process): restored B, second cycle C, exact copies D (StorageBin) and E (Serializer) taken BEFORE any
-    #      follow-up, B2 = restored + the original engine's Peng-Robinson cache (gas cases), M = restored + SOLUTION_MODIFY
+    #      follow-up, B17 = restored from the same dump with exact 17-digit doubles, M = restored + SOLUTION_MODIFY
     ops = list(base_ops)
     idx = {}
     fresh("B", ops)
@@ -199,19 +198,17 @@ def eval_case_inner(ctx, exe, case, status_of, deep=True):
         ops += ["bincopy A D", "rawall D", "sercopy A E 0 12", "rawall E", "serstream A 0 12", "serstream E 0 12"]
         insts.append("D")
         ser_ok = not ({"mix", "rxn"} & set(case["kinds"]))      # MIX and REACTION are not part of the Serializer
+        gas = "gas" in case["kinds"]
         if ser_ok:
             insts.append("E")
     fu = case["followups"] if deep else case["followups"][:1]
     name0, text0 = fu[0]
     first_only = []
-    if gas and deep:
-        fresh("B2", ops)
-        ops.append(f"run B2 {hx(d1)}")
-        for ph in hidA.split(" | ")[1:]:
-            t = ph.split()
-            if t[4] != "0000000000000000":
-                ops.append(f"setphase B2 {hx(t[0])} {t[1]} {t[2]} {t[3]} {t[4]} {t[5]}")
-        first_only.append("B2")
+    if deep:
+        fresh("B17", ops)
+        idx["read17"] = len(ops)
+        ops.append(f"run B17 {hx(t17)}")
+        insts.append("B17")
     sol = ents1.get(("SOLUTION_RAW", 1))
     if sol is not None:
         fresh("M", ops)
@@ -287,46 +284,60 @@ def eval_case_inner(ctx, exe, case, status_of, deep=True):
         T.pop((name0, "M"), None)
     elif "mod" in idx:
         res["modify"] = True
-    CLASS = {"B": "followup", "D": "bincopy", "E": "sercopy", "M": "modify"}
+    if deep and parse_run(out[idx["read17"]])[0] != 0:
+        res["problems"].append(("read-error", f"errors reading the 17-digit dump: {parse_run(out[idx['read17']])[1][:300]}"))
+    # Every instance other than A runs in an equally fresh engine. The links that are judged (all at 1e-7):
+    #   B17 vs D   the dump itself: same exact doubles, once through RAW text, once as object copy          → violation "followup"
+    #              (a tied component re-derived while reading is attributed to tied-exchanger-rederived)
+    #   B   vs B17 the 14 significant digits of the text, nothing else differs                              → raw-text-14-digits
+    #   D   vs A   exact copy of every entity in a fresh engine vs the original engine                       → original-engine-warm-start
+    #   E   vs D   Serializer copy vs object copy                                                           → violation "sercopy"
+    #   M   vs B   restored + SOLUTION_MODIFY of its own totals/H/O/cb vs restored                          → violation "modify"
     for n_fu, (name, text) in enumerate(fu):
         ra, selA = T[(name, "A")]
         if ra[0] != 0:
             res["notes"].append(f"follow-up {name} fails on the original state (not judged)")
             continue
-        tab = {t: T[(name, t)] for t in ("B", "D", "E", "M", "B2") if (name, t) in T}
-        dAB = cells_differ(selA, tab["B"][1]) if tab["B"][0][0] == 0 else None
-        cause = None
-        if dAB:
-            selB = tab["B"][1]
-            selD = tab["D"][1] if "D" in tab and tab["D"][0][0] == 0 else None
-            if rederived:
-                cause = "tied-exchanger-rederived"
-            elif selD is not None and cells_differ(selA, selD) is None:
-                cause = "raw-text-14-digits"          # an exact copy in an equally fresh engine reproduces the original
-            elif selD is not None and cells_differ(selB, selD) is None and gas:
-                # an exact copy of the entities in a fresh engine behaves like the restored instance: the dump is complete, the
-                # ORIGINAL's result depends on what its engine keeps from the previous calculation (phase::pr_si_f, cached unknowns),
-                # which the 0.001 atm absolute pressure test of the gas-phase solver does not iterate out
-                cause = "gas-phase-first-step-lag"
-                inj = "B2" in tab and tab["B2"][0][0] == 0 and cells_differ(selA, tab["B2"][1]) is None
-                res["notes"].append("restored + original's phase::pr_si_f reproduces the original: " + ("yes" if inj else "no"))
-        for t in ("B", "D", "E", "M"):
-            if t not in tab:
-                continue
-            rt, selX = tab[t]
+        tab = {t: T[(name, t)] for t in ("B", "B17", "D", "E", "M") if (name, t) in T}
+        for t, (rt, _) in tab.items():
             res["followups"] += 1
             if rt[0] != 0:
-                res["problems"].append((CLASS[t], f"follow-up {name} runs on the original state but fails on {t}: {rt[1][:300]}"))
-                continue
-            d = cells_differ(selA, selX)
-            if not d:
-                continue
-            like_ref = t == "B" or cells_differ(tab["B"][1], selX) is None or \
-                ("D" in tab and tab["D"][0][0] == 0 and cells_differ(tab["D"][1], selX) is None)
-            if cause and like_ref:
-                res["sig"].append((cause, f"follow-up {name}, original vs {CLASS[t]}: {d}"))
-            else:
-                res["problems"].append((CLASS[t], f"follow-up {name}: original vs {t}: {d}"))
+                res["problems"].append(({"B": "followup", "B17": "followup", "D": "bincopy", "E": "sercopy", "M": "modify"}[t],
+                                        f"follow-up {name} runs on the original state but fails on {t}: {rt[1][:300]}"))
+        okay = {t: v[1] for t, v in tab.items() if v[0][0] == 0}
+        links = []
+        if "B17" in okay and "D" in okay:
+            d = cells_differ(okay["D"], okay["B17"])
+            if d and rederived:
+                res["sig"].append(("tied-exchanger-rederived", f"follow-up {name}, object copy vs restored from exact text: {d}"))
+                links.append(d)
+            elif d:
+                res["problems"].append(("followup", f"follow-up {name}: object copy vs instance restored from the (exact, 17-digit) RAW text: {d}"))
+                links.append(d)
+        if "B" in okay and "B17" in okay:
+            d = cells_differ(okay["B17"], okay["B"])
+            if d:
+                res["sig"].append(("raw-text-14-digits", f"follow-up {name}, restored from 17-digit vs from 14-digit text: {d}"))
+                links.append(d)
+        if "D" in okay:
+            d = cells_differ(selA, okay["D"])
+            if d:
+                res["sig"].append(("original-engine-warm-start", f"follow-up {name}, original vs exact object copy in a fresh engine: {d}"))
+                links.append(d)
+        if "E" in okay and "D" in okay:
+            d = cells_differ(okay["D"], okay["E"])
+            if d:
+                res["problems"].append(("sercopy", f"follow-up {name}: Serializer copy vs object copy: {d}"))
+        if "M" in okay and "B" in okay:
+            d = cells_differ(okay["B"], okay["M"])
+            if d:
+                res["problems"].append(("modify", f"follow-up {name}: restored + SOLUTION_MODIFY of its own totals/H/O/cb vs restored: {d}"))
+        if "B" in okay:
+            d = cells_differ(selA, okay["B"])
+            if d and not links and deep:
+                res["notes"].append(f"original vs restored differ just beyond 1e-7 while every link is within it: {d}")
+            elif d and not deep:
+                res["problems"].append(("followup", f"follow-up {name}: original vs restored: {d}"))
     # ---- text of the exact copies
     if deep:
         nonneg = lambda ents: {k: v for k, v in ents.items() if k[1] >= 0}
@@ -461,7 +472,7 @@ TIED_SETUP = ("SOLUTION 1\n K 2.4\n Cl 0.4\nEND\nEQUILIBRIUM_PHASES 1\n Calcite 
               " -equilibrate 1\nEND\nUSE solution 1\nUSE equilibrium_phases 1\nUSE exchange 1\nSAVE solution 1\nSAVE equilibrium_phases 1\n"
               "SAVE exchange 1\nEND\n")
 MIN_CASES = {
-    "gas-phase-first-step-lag": dict(db="phreeqc.dat", adds="", kinds=["gas"], feat=["gas:fixed_volume"], react=True,
+    "original-engine-warm-start": dict(db="phreeqc.dat", adds="", kinds=["gas"], feat=["gas:fixed_volume"], react=True,
         setup="SOLUTION 1\n temp 60\n Na 1\n Cl 1\nEND\nGAS_PHASE 1\n -fixed_volume\n -volume 1\n -temperature 40\n CH4(g) 0.005\n H2O(g) 0.03\n"
               "END\nUSE solution 1\nUSE gas_phase 1\nREACTION 5\n NaCl 1\n 0.0005\nSAVE solution 1\nSAVE gas_phase 1\nEND\n",
         followups=[("use", SEL_GAS + "USE solution 1\nUSE gas_phase 1\nREACTION 9\n HCl 1\n 0.001\nEND\n")]),
@@ -630,9 +641,10 @@ def run(ctx):
                        "read into a fresh instance (no errors), dump, read, dump (equal text), follow-ups (USE… / RUN_CELLS, convergence "
                        "tolerance 1e-12) on the original, the restored instance, a StorageBin copy, a Serializer copy and a restored instance "
                        "after a SOLUTION_MODIFY of totals/H/O/cb, all against the original at 1e-7; Serializer stream idempotence; copy "
-                       "constructor; differences between first and second dump must be on keys the model calls dropped. A difference is "
-                       "attributed to a traced cause only by the rules in eval_case (exact copy reproduces original → text precision; restored + "
-                       "original's phase::pr_si_f reproduces original → gas lag; tied component re-derived in the second dump). distinct = "
+                       "constructor; differences between first and second dump must be on keys the model calls dropped. Links judged at 1e-7: "
+                       "restored-from-exact-17-digit-text vs object copy (the dump itself: violation), 14-digit vs 17-digit restore "
+                       "(raw-text-14-digits), object copy in a fresh engine vs original (original-engine-warm-start), Serializer copy vs object "
+                       "copy, SOLUTION_MODIFY vs restored. distinct = "
                        "distinct setup inputs that ran without error (judged).")
     if not ok and not ctx.violations:
         ctx.violation("proof obligation / translator of C10 no longer checks and no failing input was found",
